@@ -467,7 +467,15 @@ class Frame(object):
             self.assign(t, v)
 
     def st_AugAssign(self, st):
-        cur = self.ev(_load(st.target))
+        t = st.target
+        if isinstance(t, ast.Name):
+            cur = self.lookup(t)
+        elif isinstance(t, ast.Subscript):
+            cur = self.ev_Subscript(t)
+        elif isinstance(t, ast.Attribute):
+            cur = self.ev_Attribute(t)
+        else:
+            raise LiftUnknown('augmented assignment target')
         rhs = self.ev(st.value)
         if isinstance(cur, list) and isinstance(st.op, ast.Add):
             if not isinstance(rhs, (list, tuple)):
@@ -643,6 +651,13 @@ class Frame(object):
         return self.binop(n.op, self.ev(n.left), self.ev(n.right), n)
 
     def binop(self, op, a, b, node):
+        if isinstance(a, str) and isinstance(op, ast.Mod):
+            vals = b if isinstance(b, tuple) else (b,)
+            vals = tuple(show(x) if isinstance(x, Term) else (0 if isinstance(x, (Sym, ModVal)) else x) for x in vals)
+            try:
+                return a % vals
+            except Exception as e:
+                raise LiftError(type(e).__name__, str(e), node)
         if isinstance(a, Term) or isinstance(b, Term):
             if not (isinstance(a, Term)):
                 raise LiftError('TypeError', 'unsupported operand types for %s: %s and Expr' % (type(op).__name__, type(a).__name__), node)
@@ -803,6 +818,8 @@ class Frame(object):
 
     def ev_Subscript(self, n):
         v = self.ev(n.value)
+        if isinstance(v, Sym):
+            return Sym(v.tag)
         if isinstance(v, Term):
             if not isinstance(n.slice, ast.Slice):
                 raise LiftError('ValueError', 'bad slice (Expr.__getitem__ with a non-slice)', n)
